@@ -146,16 +146,22 @@ func (u *PsipURI) Truncate() {
 func (u *PsipURI) AdjustOffs(newpos PField) bool {
 	offs := newpos.Offs // new start
 	end := offs + newpos.Len
-	if (u.Scheme.Len + u.User.Len + u.Pass.Len + u.Host.Len + u.Port.Len +
-		u.Params.Len + u.Headers.Len) > newpos.Len {
+	start := u.Scheme.Offs
+	// uri length: from the scheme start to the end of the last present
+	// component (it includes the delimiters between the components)
+	uend := start + u.Scheme.Len
+	for _, f := range [...]PField{u.User, u.Pass, u.Host, u.Port,
+		u.Params, u.Headers} {
+		if f.Offs != 0 && f.Offs+f.Len > uend {
+			uend = f.Offs + f.Len
+		}
+	}
+	if uend-start > newpos.Len {
 		if DBGon() {
-			DBG("AdjustOffs: %d > %d\n",
-				u.Scheme.Len+u.User.Len+u.Pass.Len+u.Host.Len+u.Port.Len+
-					u.Params.Len+u.Headers.Len, newpos.Len)
+			DBG("AdjustOffs: %d > %d\n", uend-start, newpos.Len)
 		}
 		return false
 	}
-	start := u.Scheme.Offs
 	last := offs
 	u.Scheme.Offs = offs
 	if u.User.Offs != 0 {
